@@ -533,7 +533,14 @@ fn parse_pad_operation(pair: pest::iterators::Pair<Rule>) -> Result<StringOp, St
 fn parse_regex_extract_operation(pair: pest::iterators::Pair<Rule>) -> Result<StringOp, String> {
     let mut parts = pair.into_inner();
     let pattern = parts.next().unwrap().as_str().to_string();
-    let group = parts.next().and_then(|p| p.as_str().parse().ok());
+    let group = parts
+        .next()
+        .map(|p| {
+            p.as_str()
+                .parse()
+                .map_err(|_| format!("Invalid capture group: {}", p.as_str()))
+        })
+        .transpose()?;
     Ok(StringOp::RegexExtract { pattern, group })
 }
 
@@ -760,31 +767,36 @@ fn parse_sed_string(pair: pest::iterators::Pair<Rule>) -> Result<(String, String
 /// - Open start: `..3`, `..=3`
 /// - Open end: `2..`
 /// - Full range: `..`
+fn parse_bound(p: pest::iterators::Pair<Rule>) -> Result<isize, String> {
+    let s = p.as_str();
+    s.parse().map_err(|_| format!("Invalid index: {s}"))
+}
+
 fn parse_range_spec(pair: pest::iterators::Pair<Rule>) -> Result<RangeSpec, String> {
     let inner = pair.into_inner().next().unwrap();
     match inner.as_rule() {
         Rule::range_inclusive => {
             let mut parts = inner.into_inner();
-            let start = parts.next().and_then(|p| p.as_str().parse().ok());
-            let end = parts.next().and_then(|p| p.as_str().parse().ok());
+            let start = parts.next().map(parse_bound).transpose()?;
+            let end = parts.next().map(parse_bound).transpose()?;
             Ok(RangeSpec::Range(start, end, true))
         }
         Rule::range_exclusive => {
             let mut parts = inner.into_inner();
-            let start = parts.next().and_then(|p| p.as_str().parse().ok());
-            let end = parts.next().and_then(|p| p.as_str().parse().ok());
+            let start = parts.next().map(parse_bound).transpose()?;
+            let end = parts.next().map(parse_bound).transpose()?;
             Ok(RangeSpec::Range(start, end, false))
         }
         Rule::range_from => {
-            let start = inner.into_inner().next().unwrap().as_str().parse().ok();
+            let start = Some(parse_bound(inner.into_inner().next().unwrap())?);
             Ok(RangeSpec::Range(start, None, false))
         }
         Rule::range_to => {
-            let end = inner.into_inner().next().unwrap().as_str().parse().ok();
+            let end = Some(parse_bound(inner.into_inner().next().unwrap())?);
             Ok(RangeSpec::Range(None, end, false))
         }
         Rule::range_to_inclusive => {
-            let end = inner.into_inner().next().unwrap().as_str().parse().ok();
+            let end = Some(parse_bound(inner.into_inner().next().unwrap())?);
             Ok(RangeSpec::Range(None, end, true))
         }
         Rule::range_full => Ok(RangeSpec::Range(None, None, false)),
